@@ -241,3 +241,45 @@ def r4(case, rec):
     if not ok.any():
         raise Reject()
     require_close(got[ok], exp[ok], 1e-9, 'deep-coverage corrected model vs plain projection', rec, key='deep coverage', atol=1e-12 * np.abs(exp).max())
+
+
+@REG.relation('R5-deep-coverage-simulated', strategy=lambda: model_case(deep=True), quick=(240, 16), thorough=(3000, 16))
+def r5(case, rec):
+    """Deep coverage in the simulated regime (sim_threshold=0): every entry of the model is redistributed according to nsim simulated
+    draws, so the corrected model equals the plain projection up to Monte-Carlo error - each output entry within 7 standard errors
+    (variance sum_i c_i^2 p_ij (1-p_ij) / nsim from the exact projection probabilities p_ij)."""
+    nsim = 300
+    case = dict(case, sim_threshold=0)
+    inbred = case['use_F'] and any(case['Fs'])
+    rec.case(case, any(s < n for s, n in zip(case['nsub'], case['nseq'])), ['P=%d' % case['P'], 'inbred' if inbred else 'outbred',
+                                                                            'sub<seq' if any(s < n for s, n in zip(case['nsub'], case['nseq'])) else 'sub=seq'])
+    with dadi_call('low-pass corrected model (deep coverage, simulated regime)'):
+        model, out = run_lowpass(case, 0, nsim=nsim)
+    md = np.asarray(np.ma.getdata(model), float)
+    mm = np.ma.getmaskarray(model)
+    mats = []
+    for n, s, F in zip(case['nseq'], case['nsub'], case['Fs']):
+        if inbred:
+            mats.append(E.individual_projection(n // 2, s // 2, E.config_probs if F == 0 else (lambda a, b, F=F: E.config_probs_inbred(a, b, F))))
+        else:
+            mats.append(np.array([[float(hypergeom.weight(n, s, i, j)) for j in range(s + 1)] for i in range(n + 1)]))
+    got = np.asarray(np.ma.getdata(out), float)
+    exp = np.zeros(got.shape)
+    var = np.zeros(got.shape)
+    fed_by_masked = np.zeros(got.shape, bool)
+    for idx in np.ndindex(md.shape):
+        p = mats[0][idx[0]]
+        for k in range(1, case['P']):
+            p = np.multiply.outer(p, mats[k][idx[k]])
+        if mm[idx]:
+            fed_by_masked |= p > 0
+            continue
+        exp += md[idx] * p
+        var += md[idx] ** 2 * np.clip(p * (1 - p), 0.0, None) / nsim
+    ok = ~fed_by_masked
+    if not ok.any():
+        raise Reject()
+    z = np.abs(got - exp)[ok] / (np.sqrt(var[ok]) + 1e-9 * np.abs(exp).max())
+    rec.err('simulated deep coverage (max z)', float(z.max()) / 7.0 * 1e-9)
+    require(z.max() <= 7.0, 'deep coverage, simulated regime: an entry of the corrected model is %.1f standard errors from the plain projection '
+            '(nseq=%r nsub=%r): got %r expected %r' % (z.max(), case['nseq'], case['nsub'], got[ok][int(np.argmax(z))], exp[ok][int(np.argmax(z))]))
